@@ -163,7 +163,14 @@ def scenario(rng, kind):
         if kind == "fault":
             s = rng.choice(streams)
             n = acq[s]["n"]
-            if rng.random() < 0.5:
+            r = rng.random()
+            if r < 0.15:
+                prog.append("camstartfail %d" % s)
+                acq[s]["fault"] = "camstart"
+            elif r < 0.3:
+                prog.append("stostartfail %d" % s)
+                acq[s]["fault"] = "stostart"
+            elif r < 0.65:
                 prog.append("camfail %d %d" % (s, rng.randint(0, max(0, n))))
                 acq[s]["fault"] = "cam"
             else:
